@@ -494,6 +494,104 @@ impl ArcCC {
     }
 }
 
+/// Verification hooks (read-only snapshot of the controller state).
+#[cfg(genmeta_gm_quic_verif)]
+pub mod verif {
+    use tokio::time::{Duration, Instant};
+
+    #[derive(Debug, Clone)]
+    pub struct VerifPacket {
+        pub pn: u64,
+        pub time_sent: Instant,
+        pub ack_eliciting: bool,
+        pub in_flight: bool,
+        pub sent_bytes: usize,
+        /// 0 = in flight (outstanding), 1 = acknowledged, 2 = declared lost
+        pub state: u8,
+    }
+
+    #[derive(Debug, Clone)]
+    pub struct VerifSpace {
+        pub largest_acked: Option<u64>,
+        pub loss_time: Option<Instant>,
+        pub time_of_last_ack_eliciting_packet: Option<Instant>,
+        pub need_send_ack_eliciting: usize,
+        pub packets: Vec<VerifPacket>,
+    }
+
+    #[derive(Debug, Clone)]
+    pub struct VerifSnapshot {
+        pub cwnd: usize,
+        pub ssthresh: usize,
+        pub bytes_in_flight: usize,
+        pub recovery_start: Option<Instant>,
+        pub pto_count: u32,
+        pub loss_detection_timer: Option<Instant>,
+        pub latest_rtt: Duration,
+        pub smoothed_rtt: Duration,
+        pub rttvar: Duration,
+        pub min_rtt: Duration,
+        pub has_rtt_sample: bool,
+        pub max_ack_delay: Duration,
+        pub spaces: [VerifSpace; 3],
+    }
+}
+
+#[cfg(genmeta_gm_quic_verif)]
+impl ArcCC {
+    /// Verification hook (read-only): snapshot of congestion, timer and per-space packet state.
+    pub fn verif_snapshot(&self) -> verif::VerifSnapshot {
+        use crate::packets::State;
+        let guard = self.0.lock().unwrap();
+        let (cwnd, ssthresh, bytes_in_flight, recovery_start) = guard.algorithm.verif_state();
+        let (latest_rtt, smoothed_rtt, rttvar, min_rtt, has_rtt_sample) = guard.rtt.verif_state();
+        let space = |epoch: Epoch| {
+            let s = &guard.packet_spaces[epoch];
+            verif::VerifSpace {
+                largest_acked: s.largest_acked_packet,
+                loss_time: s.loss_time,
+                time_of_last_ack_eliciting_packet: s.time_of_last_ack_eliciting_packet,
+                need_send_ack_eliciting: guard.need_send_ack_eliciting_packets[epoch],
+                packets: s
+                    .sent_packets
+                    .iter()
+                    .map(|p| verif::VerifPacket {
+                        pn: p.packet_number,
+                        time_sent: p.time_sent,
+                        ack_eliciting: p.ack_eliciting,
+                        in_flight: p.count_for_cc,
+                        sent_bytes: p.sent_bytes,
+                        state: match p.state {
+                            State::Inflight => 0,
+                            State::Acked => 1,
+                            State::Retransmitted => 2,
+                        },
+                    })
+                    .collect(),
+            }
+        };
+        verif::VerifSnapshot {
+            cwnd,
+            ssthresh,
+            bytes_in_flight,
+            recovery_start,
+            pto_count: guard.pto_count,
+            loss_detection_timer: guard.loss_detection_timer,
+            latest_rtt,
+            smoothed_rtt,
+            rttvar,
+            min_rtt,
+            has_rtt_sample,
+            max_ack_delay: guard.max_ack_delay,
+            spaces: [
+                space(Epoch::Initial),
+                space(Epoch::Handshake),
+                space(Epoch::Data),
+            ],
+        }
+    }
+}
+
 impl super::Transport for ArcCC {
     fn do_tick(&self) -> Result<(), TooManyPtos> {
         let now = Instant::now();
